@@ -11,6 +11,12 @@ import Generated.Params
   For every case: (1) the Float twin of `Orb.SmartClip` is run and compared token-for-token with the
   implementation's outcome; (2) the executable statement of the property is evaluated on the
   IMPLEMENTATION's outcome, exactly over `Rat`.
+
+  Verdict discipline: a `propfail` verdict carries ` +diff` when model and implementation disagree on
+  that case; the labels that known findings match (`rounding-sensitive touch-order region-differs`,
+  `caller-memory-written implicit-close`, `nested-member hole-misassigned`,
+  `box-inside-outer-ring`) are emitted only when the model reproduces the implementation's outcome
+  AND the documented mechanism is recognised on the case itself.
 -/
 namespace Driver.C16
 open Orb Orb.Proto Orb.Core Orb.SmartClip Driver.C07 Driver.C08
@@ -144,9 +150,96 @@ def specArc (box : Bound Q) (o : Int) (a b : Pt Q) : Option (List (Pt Q)) := do
 
 /-! ### the executable property on an output multipolygon -/
 
+def absQ (x : Q) : Q := if x < 0 then -x else x
+
+/-- L1 length of the implicitly closed vertex list -/
+def perimL1 (ps : List (Pt Q)) : Q :=
+  (edgesOf ps).foldl (fun s (a, b) => s + absQ (b.x - a.x) + absQ (b.y - a.y)) 0
+
+/-- a ring whose area is below `tol` times its length: what a touch of width ~1e-16 turns into once its
+    vertices have been rounded (approximate mode only; error analysis: a vertex computed by `intersect`
+    is off by a few ulps, so the doubled area of a ring of length L moves by at most a few ulps · L,
+    far below tol · L with tol = 1e-9) -/
+def isSliver (tol : Q) (r : List (Pt Q)) : Bool := absQ (area2 r) ≤ tol * perimL1 r
+
+/-- approximate mode: polygons whose outer ring is a sliver and holes that are slivers are set aside
+    before the winding test and the region comparison -/
+def dropSlivers (tol : Q) (out : MP Q) : MP Q :=
+  if tol == 0 then out else
+  out.filterMap fun pg => match pg with
+    | outer :: holes => if isSliver tol outer then none else some (outer :: holes.filter fun h => !(isSliver tol h))
+    | [] => some []
+
+/-! #### exact scan lines
+
+  The region clause is decided on one horizontal line through every slab between consecutive vertex
+  heights (vertices of the input rings, of the output rings and of the box): on such a line no vertex
+  lies, every ring meets it in finitely many points computed exactly, and the set of points of the line
+  lying in a polygon is a finite union of intervals.  Every output polygon and every connected piece of
+  the expected region has positive area, hence spans a slab, hence meets one of the lines in an interval
+  of positive length: each of them gets an exact interior witness, and the comparison is one of
+  interval sets, not of 16 sample points. -/
+
+/-- crossings of the implicitly closed ring with the line `y = c` (`c` is no vertex height): the
+    abscissa and the weight `1 + |dx/dy|` of the crossing edge (how far a vertex error moves it) -/
+def crossXs (r : List (Pt Q)) (c : Q) : List (Q × Q) :=
+  (edgesOf r).filterMap fun (a, b) =>
+    if (a.y < c && c < b.y) || (b.y < c && c < a.y) then
+      let s := (b.x - a.x) / (b.y - a.y)
+      some (a.x + (c - a.y) * s, 1 + absQ s)
+    else none
+
+def oddBelow (xs : List (Q × Q)) (m : Q) : Bool := (xs.filter fun x => x.1 < m).length % 2 == 1
+
+/-- `outer` minus the holes, on the line -/
+def polyAt (pg : List (List (Q × Q))) (m : Q) : Bool :=
+  match pg with
+  | [] => false
+  | o :: hs => oddBelow o m && !(hs.any fun h => oddBelow h m)
+
+/-- on the line `y = c`, inside the box: (length where the number of output polygons holding the point
+    differs from the expected 0 / 1, length where two output polygons overlap, sum of crossing weights) -/
+def scanLine (box : Bound Q) (expP outP : MP Q) (c : Q) : Q × Q × Q :=
+  let ex := expP.map fun pg => pg.map fun r => crossXs r c
+  let ou := outP.map fun pg => pg.map fun r => crossXs r c
+  let all := ex.flatten.flatten ++ ou.flatten.flatten
+  let bps := ([box.lo.x, box.hi.x] ++ all.map (·.1)).filter fun x => box.lo.x ≤ x && x ≤ box.hi.x
+  let sorted := (bps.toArray.qsort (· < ·)).toList
+  let wsum := all.foldl (fun s x => s + x.2) 0
+  let (bad, ov) := (sorted.zip (sorted.drop 1)).foldl (fun (acc : Q × Q) (x : Q × Q) =>
+    if x.1 == x.2 then acc else
+    let m := (x.1 + x.2) / 2
+    let cnt := (ou.filter fun pg => polyAt pg m).length
+    let e := ex.any fun pg => polyAt pg m
+    (if cnt != (if e then 1 else 0) then acc.1 + (x.2 - x.1) else acc.1,
+     if cnt > 1 then acc.2 + (x.2 - x.1) else acc.2)) (0, 0)
+  (bad, ov, wsum)
+
+/-- heights of the scan lines: the middle of every slab of height > `tolH` inside the box -/
+def scanHeights (box : Bound Q) (tolH : Q) (ys : List Q) : List Q :=
+  let ys := ([box.lo.y, box.hi.y] ++ ys).filter fun y => box.lo.y ≤ y && y ≤ box.hi.y
+  let s := (ys.toArray.qsort (· < ·)).toList
+  (s.zip (s.drop 1)).filterMap fun (a, b) => if b - a > tolH then some ((a + b) / 2) else none
+
+/-- the region clause on all scan lines.  Exact mode (`tol = 0`): the two interval sets must be equal up
+    to finitely many points.  Approximate mode: slabs thinner than `tol · scale` are skipped and on each
+    line the symmetric difference may have length `tol · scale · Σ weights` (each of the crossings is
+    off by a few ulps · scale · (1 + |dx/dy|); tol = 1e-9 leaves six orders of magnitude). -/
+def regionScan (box : Bound Q) (tol : Q) (expP outP : MP Q) : Option String :=
+  let scale := 1 + absQ box.lo.x + absQ box.hi.x + absQ box.lo.y + absQ box.hi.y
+  let ys := (expP.flatten.flatten ++ outP.flatten.flatten).map (·.y)
+  let hs := scanHeights box (tol * scale) ys
+  let res := hs.map fun c => scanLine box expP outP c
+  if res.any fun (_, ov, w) => ov > tol * scale * w then some "polygons-overlap"
+  else if res.any fun (bad, _, w) => bad > tol * scale * w then some "region-differs"
+  else none
+
 structure Spec where
   /-- expected membership of a point strictly inside the box -/
   inside : Pt Q → Bool
+  /-- the expected region as polygons (outer ring minus holes, vertex lists not explicitly closed);
+      `inside` is membership in one of them -/
+  polys : MP Q
   /-- every ring whose boundary a sample point must stay away from -/
   rings : List (List (Pt Q))
   /-- holes of the input that must come back verbatim, attached to their container -/
@@ -160,6 +253,9 @@ def checkOutput (box : Bound Q) (o : Int) (tol : Q) (sp : Spec) (qs : List (Pt Q
   if !(rings.all fun r => r.all fun v =>
         box.lo.x - tol ≤ v.x && v.x ≤ box.hi.x + tol && box.lo.y - tol ≤ v.y && v.y ≤ box.hi.y + tol) then
     some "vertex-outside-box" else
+  -- approximate mode: slivers of rounded vertices have no winding and no area worth comparing
+  let out := dropSlivers tol out
+  let rings := out.flatten
   if !(out.all fun pg => match pg with
         | outer :: holes => signOf (area2 outer) == o && holes.all fun h => signOf (area2 h) == -o
         | [] => false) then
@@ -171,13 +267,19 @@ def checkOutput (box : Bound Q) (o : Int) (tol : Q) (sp : Spec) (qs : List (Pt Q
   if !bad.isEmpty then
     (if bad.any fun q => (out.filter fun pg => inPolygon pg q).length > 1 then some "polygons-overlap"
      else some "region-differs") else
-  -- holes that stay inside: verbatim, in exactly one polygon, and that polygon's outer ring contains them
+  -- the same on exact scan lines: an interior witness for every output polygon and every expected piece
+  match regionScan box tol sp.polys out with
+  | some why => some why
+  | none =>
+  -- holes that stay inside: verbatim, in exactly one polygon, inside that polygon's outer ring and in
+  -- none of its other holes (the polygon that CONTAINS them, not merely one whose outer ring surrounds them)
   let holeBad := sp.keptHoles.filter fun h =>
     let owners := out.filter fun pg => (pg.drop 1).any (· == h)
     match owners with
     | [pg] =>
       (match pg with
-       | outer :: _ => !(h.all fun v => nearRing outer v eps2 || evenOdd outer v)
+       | outer :: hs => !(h.all fun v => nearRing outer v eps2 || evenOdd outer v) ||
+           (hs.any fun h' => h' != h && h.any fun v => evenOdd (unclose h') v && !(nearRing h' v eps2))
        | [] => true)
     | _ => true
   if !holeBad.isEmpty then some "hole-not-attached-to-container" else
@@ -236,15 +338,49 @@ def parseO (ts : Toks) : Option (Int × Toks) := int ts
 
 def boxOK (b : Bound Q) : Bool := b.lo.x < b.hi.x && b.lo.y < b.hi.y
 
-def finish (model got : String) (cls : String) (verdict : String) : String :=
-  -- the Float twin reproduces the implementation's wrong answer while the exact model is right:
-  -- the failure is one of float rounding (an endpoint one ulp off the boundary vertex it should equal)
-  if verdict.startsWith "propfail touch-order" && model == got then
-    "propfail rounding-sensitive " ++ (verdict.drop 9).toString
+/-- the documented mechanism of finding C16-touch-rounding, recognised on the case: an input vertex lies
+    exactly on the box boundary and a piece of the Float twin's open-bound clip ends NEXT to it (within
+    1e-9, relative) without being bit-equal to it -/
+def nearMissTouch (box : Bound F) (rings : List (List (Pt F))) : Bool :=
+  let vb := rings.flatten.filter fun v => Clip.bitCode box v == 0 && Clip.bitCodeOpen box v != 0
+  match clipRings box rings with
+  | .ok (op, _) =>
+    let ends := op.flatMap fun ls => ls.head?.toList ++ ls.getLast?.toList
+    ends.any fun e => vb.any fun v =>
+      let d := 1e-9 * (1 + Float.abs v.x + Float.abs v.y)
+      !(Core.ptEq e v) && Float.abs (e.x - v.x) ≤ d && Float.abs (e.y - v.y) ≤ d
+  | _ => false
+
+/-- the last step of every handler: model agreement, `+diff`, and the float-only classes.
+    * `propfail touch-order …` (the exact model passes where the implementation fails) with the Float twin
+      reproducing the implementation is a failure of float rounding only: it is the known finding
+      `rounding-sensitive touch-order region-differs | polygons-overlap` when the clause is the region
+      (wrong, or covered twice) and `nearMiss` recognises the mechanism, and `propfail float-only …` (never matched by a known finding) otherwise;
+    * every other `propfail` gets ` +diff` when the model disagrees with the implementation. -/
+def finish (model got : String) (cls : String) (verdict : String) (nearMiss : Bool := false) : String :=
+  let agree := model == got
+  if verdict.startsWith "propfail touch-order" && agree then
+    (if (verdict.startsWith "propfail touch-order region-differs" ||
+         verdict.startsWith "propfail touch-order polygons-overlap") && nearMiss then
+      "propfail rounding-sensitive " ++ (verdict.drop 9).toString
+     else "propfail float-only " ++ (verdict.drop 9).toString)
   else
-  if verdict.startsWith "propfail" || model == got then verdict
+  if verdict.startsWith "propfail" then (if agree then verdict else verdict ++ " +diff")
+  else if agree then verdict
   else if cls.endsWith " tie big" then "skip pdqsort-tie-order"
   else "diff " ++ model
+
+/-- outcomes of the watchdog: `hang` (the worker burnt its CPU allowance on the case twice without
+    answering) and `crash` (the worker process died twice).  Before /repo 2c23ded the inner loop of
+    clip.line did not terminate when a ring vertex sat exactly on a corner of a general-position box
+    (11 of 41 304 generated cases); since then the loop is bounded (theorem `Clip.line_total_any`, any
+    arithmetic) and `hang` is a plain property failure. -/
+def watchdogClause (_ms : String) (out : Toks) : Option String :=
+  if out == ["hang"] then some "propfail hang"
+  else if out == ["crash"] then some "propfail crash"
+  else none
+
+def validO (o : Int) : Bool := o == 1 || o == -1
 
 /-- parse the implementation's multipolygon outcome -/
 def parseMP (out : Toks) : Option (MP UInt64) :=
@@ -294,7 +430,7 @@ def judgeRing (o : Int) (bq : Bound Q) (path full qs : List (Pt Q)) (outq : MP Q
     else if eff.all (strictlyInside bq) then
       (if outq == [[path]] then "ok " ++ mode ++ " inside-unchanged" else "propfail inside-not-unchanged")
     else
-      let sp : Spec := { inside := evenOdd u, rings := [u], keptHoles := [] }
+      let sp : Spec := { inside := evenOdd u, polys := [[u]], rings := [u], keptHoles := [] }
       match checkOutput bq o tol sp qs outq with
       | some why => classify why (checkOutput bq o tolQ sp qs) outq fixedOut
       | none =>
@@ -316,7 +452,9 @@ def handleRing (isOpen : Bool) (inp out : Toks) : String :=
     let ms := showRes (m.map showMPF)
     let got := " ".intercalate out
     let cls := sortClass (boundF b) [ptsF ps]
-    finish ms got cls <|
+    finish ms got cls (nearMiss := nearMissTouch (boundF b) [ptsF ps]) <|
+    if !(validO o) then "ok invalid-orientation (model only)" else
+    if let some v := watchdogClause ms out then v else
     if out == ["panic"] then panicClause m else
     match parseMP out with
     | none => "bad output"
@@ -346,6 +484,8 @@ def handleArc (inp out : Toks) : String :=
     let ms := showRes (m.map showMPF)
     let got := " ".intercalate out
     finish ms got "" <|
+    if !(validO o) then "ok invalid-orientation (model only)" else
+    if let some v := watchdogClause ms out then v else
     if out == ["panic"] then panicClause m else
     match parseMP out with
     | none => "bad output"
@@ -400,23 +540,68 @@ def polyWellFormed (o : Int) (pg : List (List (Pt Q))) : Bool :=
       | some a, some b => ringsApart a b && !(a.any (evenOdd b)) && !(b.any (evenOdd a))
       | _, _ => true
 
-/-- the property's quantifier for a multi-polygon: every member well formed, members pairwise apart and
-    not nested (`some "not-well-formed"`), and no outer ring swallowing the box without meeting it
-    (`some "box-inside-ring"`) -/
-def mpOutsideQuantifier (o : Int) (bq : Bound Q) (mpq : MP Q) : Option String :=
-  if !(mpq.all (polyWellFormed o)) then some "not-well-formed" else
-  let outers := mpq.filterMap fun pg => pg.head?.map unclose
-  let apart := (List.range outers.length).all fun i => (List.range outers.length).all fun j =>
+/-- the (unclosed) ring `a` lies inside one of the holes of `pg` -/
+def insideHoleOf (a : List (Pt Q)) (pg : List (List (Pt Q))) : Bool :=
+  (pg.drop 1).any fun h => let uh := unclose h; ringsApart a uh && a.all (evenOdd uh)
+
+/-- members `p`, `q` of a valid multi-polygon: outer rings apart, and either side by side or one of them
+    inside a hole of the other (an island in a lake).  The property's quantifier says "multi-polygons":
+    valid OGC multi-polygons, whose members have disjoint interiors — nesting through a hole included. -/
+def membersOK (p q : List (List (Pt Q))) : Bool :=
+  match p, q with
+  | po :: _, qo :: _ =>
+    let a := unclose po; let c := unclose qo
+    ringsApart a c && ((!(a.any (evenOdd c)) && !(c.any (evenOdd a))) || insideHoleOf a q || insideHoleOf c p)
+  | _, _ => true
+
+def pairsAll (l : MP Q) (f : List (List (Pt Q)) → List (List (Pt Q)) → Bool) : Bool :=
+  (List.range l.length).all fun i => (List.range l.length).all fun j =>
     if j ≤ i then true else
-    match outers[i]?, outers[j]? with
-    | some a, some c => ringsApart a c && !(a.any (evenOdd c)) && !(c.any (evenOdd a))
+    match l[i]?, l[j]? with
+    | some a, some c => f a c
     | _, _ => true
-  if !apart then some "not-well-formed" else
-  let centre : Pt Q := ⟨(bq.lo.x + bq.hi.x) / 2, (bq.lo.y + bq.hi.y) / 2⟩
-  let swallow := mpq.any fun pg => match pg with
-    | outer :: _ => !(meetsOpenBox bq outer) && evenOdd (unclose outer) centre
+
+/-- some member lies inside a hole of another one -/
+def hasNested (mpq : MP Q) : Bool :=
+  !(pairsAll mpq fun p q => match p, q with
+    | po :: _, qo :: _ => !(insideHoleOf (unclose po) q) && !(insideHoleOf (unclose qo) p)
+    | _, _ => true)
+
+def boxCentre (bq : Bound Q) : Pt Q := ⟨(bq.lo.x + bq.hi.x) / 2, (bq.lo.y + bq.hi.y) / 2⟩
+
+/-- some member's outer ring contains the whole box (does not meet the open box, contains its centre)
+    while one of that member's holes meets the open box: inside the quantifier (the polygon's boundary
+    meets the open box), and the situation of finding C16-box-inside-outer-ring -/
+def boxInOuter (bq : Bound Q) (mpq : MP Q) : Bool :=
+  mpq.any fun pg => match pg with
+    | outer :: holes => !(meetsOpenBox bq outer) && evenOdd (unclose outer) (boxCentre bq) &&
+        holes.any fun h => meetsOpenBox bq h
     | [] => false
+
+/-- the property's quantifier for a multi-polygon (members without rings are skipped by the code and
+    enclose nothing: they are left out first): every member well formed, members pairwise apart and side
+    by side or nested through a hole (`some "not-well-formed"` otherwise), and no member whose region
+    contains the whole box while none of its rings meets the open box (`some "box-inside-ring"`: smartclip
+    returns nothing for such a member, as for a single ring; outside the quantifier, which asks for a
+    boundary that meets the open box) -/
+def mpOutsideQuantifier (o : Int) (bq : Bound Q) (mpq : MP Q) : Option String :=
+  let mpq := mpq.filter fun pg => !pg.isEmpty
+  if !(mpq.all (polyWellFormed o)) then some "not-well-formed" else
+  if !(pairsAll mpq membersOK) then some "not-well-formed" else
+  let swallow := mpq.any fun pg => !(pg.any fun r => meetsOpenBox bq r) && inPolygon (pg.map unclose) (boxCentre bq)
   if swallow then some "box-inside-ring" else none
+
+/-- every hole of the output re-attached to the innermost outer ring that contains it (the repair of
+    finding C16-nested-hole-misassigned, applied to the implementation's output) -/
+def reassignHoles (out : MP Q) : MP Q :=
+  let outers := out.filterMap (·.head?)
+  let holes := out.flatMap (·.drop 1)
+  let ownerOf (h : List (Pt Q)) : Option (List (Pt Q)) :=
+    (outers.filter fun oR => h.any fun v => evenOdd (unclose oR) v && !(nearRing oR v eps2)).foldl
+      (fun best oR => match best with
+        | none => some oR
+        | some b => if absQ (area2 oR) < absQ (area2 b) then some oR else some b) none
+  outers.map fun oR => oR :: holes.filter fun h => ownerOf h == some oR
 
 /-- `poly <o> <box> PG … <qs>` / `mpoly <o> <box> MPG … <qs>` -/
 def handlePolys (multi : Bool) (inp out : Toks) : String :=
@@ -443,50 +628,146 @@ def handlePolys (multi : Bool) (inp out : Toks) : String :=
     let ms := showRes (m.map showMPF)
     let got := " ".intercalate out
     let cls := sortClass (boundF b) (mpf.flatten)
-    finish ms got cls <|
+    finish ms got cls (nearMiss := nearMissTouch (boundF b) mpf.flatten) <|
+    if !(validO o) then "ok invalid-orientation (model only)" else
+    if let some v := watchdogClause ms out then v else
     if out == ["panic"] then panicClause m else
     match parseMP out with
     | none => "bad output"
     | some outb =>
       match boundQ b, mpQ mpb, ptsQ qs, mpQ outb with
-      | some bq, some mpq, some qq, some outq =>
+      | some bq, some mpq0, some qq, some outq0 =>
         if !(boxOK bq) then "ok degenerate-box (model only)" else
-        let exact := match run bq mpq with
-          | .ok r => r == outq
+        let exact := match run bq mpq0 with
+          | .ok r => r == outq0
           | _ => false
         let tol : Q := if exact then 0 else tolQ
         let sfx := (if exact then "" else " approx") ++ cls
         let kind := if multi then "mpoly" else "poly"
-        match mpOutsideQuantifier o bq mpq with
+        match mpOutsideQuantifier o bq mpq0 with
         | some "box-inside-ring" => "skip box-inside-ring"
         | some _ => "ok not-well-formed (model only)"
         | none =>
+        -- members without rings are skipped by the code (`if len(p) == 0 { continue }`) and enclose nothing
+        let mpq := mpq0.filter fun pg => !pg.isEmpty
+        let emptyTag := if mpq.length < mpq0.length then " empty-members" else ""
+        let nested := hasNested mpq
+        let swallowed := boxInOuter bq mpq
         let allRings := mpq.flatten
         -- a ring is cut when it meets the open box but does not lie strictly inside it
         let cut := allRings.any fun r => meetsOpenBox bq r && !(r.all (strictlyInside bq))
         let anyIn := allRings.any fun r => r.all (strictlyInside bq)
         let holesIn := (mpq.flatMap fun pg => pg.drop 1).filter fun h => h.all (strictlyInside bq)
+        -- an input handed back whole keeps its members without rings: they are not judged
+        let outq := if !cut then outq0.filter fun pg => !pg.isEmpty else outq0
         let sp : Spec :=
           { inside := fun q => mpq.any fun pg => inPolygon (pg.map unclose) q
+            polys := mpq.map fun pg => pg.map unclose
             rings := allRings.map unclose
             keptHoles := holesIn }
-        let fixedOut : Res String (MP Q) := run bq mpq
+        let fixedOut : Res String (MP Q) := run bq mpq0
+        -- the recognised situations of the known findings (labels only; `finish` adds `+diff` when the
+        -- model does not reproduce the implementation)
+        let label (why : String) : Option String :=
+          if swallowed then some ("propfail box-inside-outer-ring " ++ why)
+          else if nested && (checkOutput bq o tolQ sp qq (reassignHoles outq)).isNone then
+            some ("propfail nested-member hole-misassigned " ++ why)
+          else none
         if !cut && !anyIn then
-          (if outq.isEmpty then "ok " ++ kind ++ " outside-nil"
+          (if outq.isEmpty then "ok " ++ kind ++ " outside-nil" ++ emptyTag
            else classify "outside-not-nil" (fun m => if m.isEmpty then none else some "x") outq fixedOut)
         else
         match checkOutput bq o tol sp qq outq with
         | some why =>
           -- a multi-polygon none of whose outer rings is cut comes back whole, outside members included
-          if multi && !cut && outq == mpq && why == "vertex-outside-box" then "propfail uncut-multipolygon-keeps-outside-members"
-          else classify why (checkOutput bq o tolQ sp qq) outq fixedOut
+          if multi && !cut && !swallowed && outq0 == mpq0 && why == "vertex-outside-box" then "propfail uncut-multipolygon-keeps-outside-members"
+          else match label why with
+            | some l => l
+            | none => classify why (checkOutput bq o tolQ sp qq) outq fixedOut
         | none =>
+          -- nothing is cut: the members inside the box come back verbatim ("returned unchanged")
+          let unchanged := mpq.filter fun pg => match pg with
+            | outer :: _ => outer.all (strictlyInside bq)
+            | [] => false
+          if !cut && outq != unchanged then
+            (match label "inside-not-unchanged" with
+             | some l => l
+             | none => "propfail inside-not-unchanged")
+          else
           let holesOut := (outq.flatMap fun pg => pg.drop 1).length
           "ok " ++ kind ++ (if !cut then " inside-unchanged" else "")
             ++ (if outq.length > 1 then " multi" else if outq.isEmpty then " none" else "")
             ++ (if holesOut > 0 then " holes-kept" else "")
-            ++ (if (mpq.flatMap fun pg => pg.drop 1).any (fun h => meetsOpenBox bq h && !(h.all (strictlyInside bq))) then " hole-cut" else "") ++ sfx
+            ++ (if (mpq.flatMap fun pg => pg.drop 1).any (fun h => meetsOpenBox bq h && !(h.all (strictlyInside bq))) then " hole-cut" else "")
+            ++ (if nested then " nested" else "") ++ (if swallowed then " box-in-outer" else "") ++ emptyTag ++ sfx
       | _, _, _, _ => "skip non-finite"
+
+/-! ### caller buffers (`aring`, `apoly`, `ampoly`) -/
+
+/-- `if !r.Closed() && (box.Contains(r[0]) || box.Contains(r[len(r)-1])) { r = append(r, r[0]) }`: the
+    append that writes into the caller's backing array when the ring has spare capacity -/
+def implicitClose (box : Bound F) (r : List (Pt F)) : Bool :=
+  !r.isEmpty && !(SmartClip.ringClosed r) &&
+    (match r.head?, r.getLast? with
+     | some f, some l => box.contains f || box.contains l
+     | _, _ => false)
+
+/-- the rings `clipRings` is called on, in order (`kind` 0 ring, 1 polygon, 2 multi-polygon; the inner
+    rings of a multi-polygon only when `MultiPolygon` does not return early) -/
+def processedRings (box : Bound F) (kind : Nat) (mp : MP F) : List (List (Pt F)) :=
+  if kind != 2 then mp.flatten else
+  let outers := SmartClip.outerRings mp
+  let early := match clipRings box outers with
+    | .ok (op, co) => op.isEmpty && (co.isEmpty || co.length == outers.length)
+    | _ => true
+  outers ++ (if early then [] else mp.flatMap fun p => p.drop 1)
+
+/-- `aring | apoly | ampoly <o> <box> <rings>`; outcome `<result on a private copy> alias <wS> <sameS> <wB> <sameB>`.
+    Judged: the call leaves every slot of the caller's buffer as it was and returns what it returns on a
+    private copy.  The known finding (`caller-memory-written implicit-close`) is reported only when the
+    model predicts the implicit closing, the number of slots written in the spare-capacity layout is
+    exactly the number of implicitly closed rings, and the result on that layout is the reference one. -/
+def handleAlias (kind : Nat) (inp out : Toks) : String :=
+  match (do
+    let (o, i) ← parseO inp
+    let (b, i) ← boundP i
+    let mp : MP UInt64 ← (if kind == 0 then
+        (match pts i with
+         | some (ps, _) => some [[ps]]
+         | none => none)
+      else
+        match geom i with
+        | some (.polygon p, _) => if kind == 1 then some [p] else none
+        | some (.multiPolygon l, _) => if kind == 2 then some l else none
+        | _ => none : Option (MP UInt64))
+    pure (o, b, mp)) with
+  | none => "bad input"
+  | some (o, b, mpb) =>
+    let mpf : MP F := mpb.map fun pg => pg.map ptsF
+    let box := boundF b
+    let m : Res String (MP F) :=
+      if kind == 2 then SmartClip.multiPolygon box mpf o
+      else match mpf with
+        | [[r]] => if kind == 0 then SmartClip.ring box r o else SmartClip.polygon box [r] o
+        | [p] => if kind == 1 then SmartClip.polygon box p o else .err "shape"
+        | _ => .err "shape"
+    let ms := showRes (m.map showMPF)
+    let main := out.takeWhile (· != "alias")
+    let al := (out.dropWhile (· != "alias")).drop 1
+    let got := " ".intercalate main
+    finish ms got "" <|
+    if !(validO o) then "ok invalid-orientation (model only)" else
+    if let some v := watchdogClause ms main then v else
+    if main == ["panic"] then panicClause m else
+    let expected := ((processedRings box kind mpf).filter (implicitClose box)).length
+    match al with
+    | [wS, sS, wB, sB] =>
+      if wS == "0" && wB == "0" && sS == "1" && sB == "1" then
+        "ok alias clean" ++ (if expected > 0 then " implicit-close" else "")
+      else if expected > 0 && wS == toString expected && sS == "1" then
+        "propfail caller-memory-written implicit-close" ++ (if sB != "1" then " result-differs" else "")
+      else "propfail caller-memory-written unexplained"
+    | _ => "bad output"
 
 def ebF : Bound F := Driver.C08.ebF
 
@@ -511,6 +792,8 @@ def handleGeom (inp out : Toks) : String :=
     let ms := showRes (m.map showGV)
     let got := " ".intercalate out
     finish ms got "" <|
+    if !(validO o) then "ok invalid-orientation (model only)" else
+    if let some v := watchdogClause ms out then v else
     if out == ["panic"] then
       (match m with
        | .panic "unreachable" => "propfail panic unreachable-in-Less"
@@ -533,7 +816,8 @@ def handleGeom (inp out : Toks) : String :=
        | some vs, some inq =>
          -- containment in the box is claimed for input inside the property's quantifier
          let wf := (mpOutsideQuantifier o bq inq).isNone
-         if wf && !(vs.all (inBoxTol bq)) then "propfail vertex-outside-box" else
+         if wf && !(vs.all (inBoxTol bq)) then
+           (if boxInOuter bq inq then "propfail box-inside-outer-ring vertex-outside-box" else "propfail vertex-outside-box") else
          -- an output ring that is not closed must be an input ring handed back as it was
          let inRings := inB.flatten
          if !((polysOf r).flatten.all fun rg => (rg.length ≥ 2 && rg.head? == rg.getLast?) || inRings.contains rg) then
@@ -554,6 +838,9 @@ def handle (ts : Toks) : String :=
     | "poly" => handlePolys false inp out
     | "mpoly" => handlePolys true inp out
     | "geom" => handleGeom inp out
+    | "aring" => handleAlias 0 inp out
+    | "apoly" => handleAlias 1 inp out
+    | "ampoly" => handleAlias 2 inp out
     | _ => "bad op " ++ op
   | [] => "bad empty"
 
